@@ -13,6 +13,8 @@ echo "== $NAME property=$PID"
 if ! git -C $W apply $D/patch.diff 2>/tmp/sv_${NAME}_apply.log; then echo "PATCH DOES NOT APPLY"; cat /tmp/sv_${NAME}_apply.log | head -5; git -C /repo worktree remove --force $W; exit 4; fi
 ( cd /tmp && PYTHONPATH=$W timeout 600 /venv/bin/python -W ignore $D/demo.py >/tmp/sv_${NAME}_mut.log 2>&1 ); echo "demo on mutant: exit $?"
 if [ "$SUITE" = "--suite" ]; then
+  # (one thread per worker: BLAS / numba thread pools oversubscribe the machine when several suites run side by side)
+  OMP_NUM_THREADS=1 OPENBLAS_NUM_THREADS=1 MKL_NUM_THREADS=1 NUMBA_NUM_THREADS=1 NUMEXPR_NUM_THREADS=1 \
   BASELINE_REPO=$W BASELINE_JOBS=${JOBS:-0} /venv/bin/python /verif/tools/baseline.py 2>&1 | grep -v WARN | tail -6
 fi
 cp -r /verif $VC; rm -rf $VC/.git $VC/evidence $VC/replay
